@@ -171,6 +171,14 @@ func (o optimizer[V]) Optimize(ast parser2.AST) parser2.AST {
 	if mc, ok := ast.(*parser2.MethodCall); ok {
 		if con, ok := mc.Value.(*parser2.Const[V]); ok {
 			if c, ok := o.allConst(mc.Args); ok {
+				if o.g.mapHandler != nil && o.g.mapHandler.IsMap(con.Value) {
+					// a field which stores a closure takes precedence over a method of the same name
+					if va, err := o.g.mapHandler.AccessMap(con.Value, mc.Name); err == nil {
+						if _, ok := o.g.ExtractFunction(va); ok {
+							return ast
+						}
+					}
+				}
 				if o.g.methodHandler != nil {
 					fu, err := o.g.methodHandler.GetMethod(con.Value, mc.Name)
 					if err != nil {
